@@ -51,7 +51,7 @@ CFG = gen.Cfg(onesided=4, servable=3, due=True,
 )
 # nested products only without workplaces here: backward_simulate reverses the dependencies, which turns the
 # assembly form around (parent tasks first) and leads into the nested-placement findings D-PLC2..4 of C13
-CFG_N = CFG.copy(nested="free", max_wps=0)
+CFG_N = CFG.copy(nested="free", max_wps=0, multi_parent=2)
 
 OPS = ["sim", "sim_default", "backward", "backward_due", "backward_due", "init", "insert_remove", "resim"]
 
